@@ -195,7 +195,16 @@ pub fn test_case(ctx: &Ctx, case: &Case, rep: &mut Report) -> Result<(), Violati
                 tol(
                     ctx,
                     Err(v(
-                        format!("malleable-id:{kind}"),
+                        // an identifier that a later signature has to cover is a different
+                        // failure from the known one on the last block of an unsealed token
+                        format!(
+                            "malleable-id:{kind}{}",
+                            if kind.starts_with("sig_") && vcore::refcrypto::signature_is_covered(&o.view, vcore::refcrypto::rkey_of(&o.root_pub).algorithm(), i) {
+                                ":covered-signature"
+                            } else {
+                                ""
+                            }
+                        ),
                         format!(
                             "variant {kind} at block {i} of shape {} verifies and reports different revocation identifiers\nvariant {}\noriginal {}",
                             plan.shape(),
